@@ -484,7 +484,7 @@ class FnTranslator:
             raise Unsupported('loop increment needs hoisting in %s' % self.key)
         out.append('  for (; %s; %s) /* loop %d */' % (c, i, k))
         out += ['  ' + a for a in annot]
-        out += ['  ' + l for l in self.block_braced(body)]
+        out += ['  ' + l for l in self.reach(self.block_braced(body), k, annot)]
         out.append('}')
         return out
 
@@ -495,8 +495,15 @@ class FnTranslator:
         c = self.ex(cond)
         if self.pre:
             raise Unsupported('loop condition needs hoisting in %s' % self.key)
-        out = ['while (%s) /* loop %d */' % (c, k)] + annot + self.block_braced(body)
+        out = ['while (%s) /* loop %d */' % (c, k)] + annot + self.reach(self.block_braced(body), k, annot)
         return out
+
+    def reach(self, body_lines, k, annot):
+        """anti-vacuity: a contracted loop body starts with a marker that must be reachable (expected to FAIL)"""
+        if not annot:
+            return body_lines
+        assert body_lines[0].strip() == '{'
+        return [body_lines[0], '  VERIF_REACH("vacuity: body of loop %d is reachable under its invariant");' % k] + body_lines[1:]
 
     def s_DoStmt(self, n):
         """do S while (c);  ->  { _Bool first = 1; while (first || c) { first = 0; S } }
@@ -510,7 +517,7 @@ class FnTranslator:
         f = '__first%d' % k
         out = ['{', '  _Bool %s = 1;' % f, '  while (%s || %s) /* loop %d (do-while) */' % (f, c, k)]
         out += ['  ' + a.replace('\\first', f) for a in annot]
-        out += ['  {', '    %s = 0;' % f] + ['    ' + l for l in b] + ['  }', '}']
+        out += ['  {', '    %s = 0;' % f] + (['    VERIF_REACH("vacuity: body of loop %d is reachable under its invariant");' % k] if annot else []) + ['    ' + l for l in b] + ['  }', '}']
         return out
 
     def s_CXXForRangeStmt(self, n):
@@ -541,6 +548,8 @@ class FnTranslator:
         out.append('  for (size_t %s = 0; %s < %s->size; ++%s) /* loop %d */' % (idx, idx, cvar, idx, k))
         out += ['  ' + a.replace('\\idx', idx).replace('\\range', cvar) for a in annot]
         out.append('  {')
+        if annot:
+            out.append('    VERIF_REACH("vacuity: body of loop %d is reachable under its invariant");' % k)
         if vt[0] == 'ref':
             out.append('    %s* %s = &%s->data[%s];' % (self.ctype(vt[1]), vd['name'], cvar, idx))
         else:
